@@ -4,6 +4,7 @@ import (
 	"encoding/base64"
 	"fmt"
 	"go/types"
+	"math"
 	"math/big"
 	"regexp"
 	"sort"
@@ -344,7 +345,52 @@ func registerStrings(in *Interp) {
 		return out
 	})
 	in.reg("strings.Repeat", func(th *Thread, fn *ssa.Function, a []Value) Value {
-		return strings.Repeat(th.str(a[0], "Repeat"), int(th.concInt(a[1], "count")))
+		n := int(th.concInt(a[1], "count"))
+		if n < 0 {
+			panic(TargetPanic{th.newError("strings: negative Repeat count")})
+		}
+		return strings.Repeat(th.str(a[0], "Repeat"), n)
+	})
+	in.reg("strings.SplitAfter", func(th *Thread, fn *ssa.Function, a []Value) Value {
+		return th.ropeSplitAfter(a[0], th.str(a[1], "SplitAfter sep"))
+	})
+	in.reg("strings.IndexFunc", func(th *Thread, fn *ssa.Function, a []Value) Value {
+		var bs []Value
+		switch x := a[0].(type) {
+		case string:
+			bs = strToBytes(x)
+		case *Rope:
+			var ok bool
+			if bs, ok = x.bytes(); !ok {
+				panic(unsupported("IndexFunc on rope with dec"))
+			}
+		}
+		for i, b := range bs {
+			var r Value
+			switch b := b.(type) {
+			case int64:
+				if b >= 0x80 {
+					panic(unsupported("IndexFunc over non-ASCII text"))
+				}
+				r = b
+			case *sym.Term:
+				if !th.branch(fromBoolTerm(sym.BVCmp("bvult", b, sym.BVConst(0x80, 8)))) {
+					panic(unsupported("IndexFunc over a non-ASCII symbolic byte"))
+				}
+				r = sym.BVResize(b, 32, false)
+			}
+			if th.branch(th.call(nil, 0, a[1], []Value{r})) {
+				return int64(i)
+			}
+		}
+		return int64(-1)
+	})
+	in.reg("math.Log10", func(th *Thread, fn *ssa.Function, a []Value) Value {
+		f, ok := a[0].(float64)
+		if !ok {
+			panic(unsupported("math.Log10 of a symbolic value"))
+		}
+		return math.Log10(f)
 	})
 	in.reg("strings.Replace", func(th *Thread, fn *ssa.Function, a []Value) Value {
 		return strings.Replace(th.str(a[0], "Replace"), th.str(a[1], "old"), th.str(a[2], "new"), int(th.concInt(a[3], "n")))
@@ -721,7 +767,7 @@ func (th *Thread) ropeContains(r *Rope, sub string) Value {
 // ropeReplaceAll handles single-byte `old` by forking per symbolic byte.
 func (th *Thread) ropeReplaceAll(r *Rope, old, nw string) Value {
 	if len(old) != 1 {
-		panic(unsupported("ReplaceAll on rope with multi-byte old"))
+		return th.ropeReplaceAllMulti(r, old, nw)
 	}
 	bs, ok := r.bytes()
 	if !ok {
@@ -745,6 +791,75 @@ func (th *Thread) ropeReplaceAll(r *Rope, old, nw string) Value {
 		}
 	}
 	return out
+}
+
+// ropeReplaceAllMulti: non-overlapping matches of a concrete multi-byte `old`, left to
+// right, each candidate position a solver-checked decision.
+func (th *Thread) ropeReplaceAllMulti(r *Rope, old, nw string) Value {
+	if old == "" {
+		panic(unsupported("ReplaceAll with empty old on a symbolic string"))
+	}
+	bs, ok := r.bytes()
+	if !ok {
+		panic(unsupported("ReplaceAll on rope with dec"))
+	}
+	var out []Value
+	i := 0
+	for i < len(bs) {
+		if i+len(old) <= len(bs) {
+			acc := sym.True
+			for j := 0; j < len(old) && !acc.IsFalse(); j++ {
+				acc = sym.And(acc, sym.Eq(toBV(bs[i+j], 8), sym.BVConst(uint64(old[j]), 8)))
+			}
+			if th.branch(fromBoolTerm(acc)) {
+				for k := 0; k < len(nw); k++ {
+					out = append(out, int64(nw[k]))
+				}
+				i += len(old)
+				continue
+			}
+		}
+		out = append(out, bs[i])
+		i++
+	}
+	return ropeFromBytes(out)
+}
+
+// ropeSplitAfter is strings.SplitAfter for a concrete separator.
+func (th *Thread) ropeSplitAfter(s Value, sep string) Value {
+	if c, ok := s.(string); ok {
+		return strSlice(strings.SplitAfter(c, sep))
+	}
+	r := s.(*Rope)
+	if c, ok := normRope(r).(string); ok {
+		return strSlice(strings.SplitAfter(c, sep))
+	}
+	if sep == "" {
+		panic(unsupported("SplitAfter with empty separator on a symbolic string"))
+	}
+	bs, ok := r.bytes()
+	if !ok {
+		panic(unsupported("SplitAfter on rope with dec"))
+	}
+	var parts []Value
+	start, i := 0, 0
+	for i < len(bs) {
+		if i+len(sep) <= len(bs) {
+			acc := sym.True
+			for j := 0; j < len(sep) && !acc.IsFalse(); j++ {
+				acc = sym.And(acc, sym.Eq(toBV(bs[i+j], 8), sym.BVConst(uint64(sep[j]), 8)))
+			}
+			if th.branch(fromBoolTerm(acc)) {
+				i += len(sep)
+				parts = append(parts, ropeFromBytes(bs[start:i]))
+				start = i
+				continue
+			}
+		}
+		i++
+	}
+	parts = append(parts, ropeFromBytes(bs[start:]))
+	return parts
 }
 
 // ropeConcretizeForRegexp picks, for every symbolic byte, its regexp byte class (a
